@@ -44,6 +44,7 @@ func typeProbes[T signal.SignalTypes](name string) func(ch, length int) []Probe 
 		winDst := big.Slice(length+2, length+3)
 		selfDst0 := big.Slice(1, 1+length) // length frames, capacity for more than twice that
 		selfDst := big.Slice(1, 1+length)
+		exact := signal.PoolAlloc[T](signal.Allocator{Channels: ch, Length: 0, Capacity: length}) // the source fills it exactly
 		pool := signal.PoolAlloc[T](signal.Allocator{Channels: ch, Length: 0, Capacity: length + 4})
 		poolL := signal.PoolAlloc[T](al)
 		ps := []Probe{
@@ -85,6 +86,11 @@ func typeProbes[T signal.SignalTypes](name string) func(ch, length int) []Probe 
 			{Name: "self-Append-within-capacity[" + name + "]", Run: func() {
 				*selfDst = *selfDst0
 				selfDst.Append(selfDst)
+			}},
+			{Name: "pool-cycle+Append-filling-the-capacity-exactly[" + name + "]", Run: func() {
+				g := exact.Get()
+				g.Append(src)
+				exact.Put(g)
 			}},
 			{Name: "pool-cycle-with-length[" + name + "]", Run: func() {
 				g1 := poolL.Get()
